@@ -168,6 +168,39 @@ CATALOGUE = [
     ('c13_zero_duty_not_locking', 'C13', S,
      "            motor.pwm == 0 or\n",
      ""),
+    # ---- C14
+    ('c14_conflict_threshold', 'C14', 'gearpy/motor_control/pwm_control.py',
+     "        if applied_rules >= 2:", "        if applied_rules > 2:"),
+    ('c14_default_zero', 'C14', 'gearpy/motor_control/pwm_control.py',
+     "        else:\n            pwm = 1\n", "        else:\n            pwm = 0\n"),
+    ('c14_no_saturation', 'C14', 'gearpy/motor_control/pwm_control.py',
+     "        return min(max(pwm, -1), 1)", "        return min(max(pwm, -0.999), 0.999)"),
+    ('c14_first_rule_wins', 'C14', 'gearpy/motor_control/pwm_control.py',
+     "        if applied_rules >= 2:\n            raise ValueError(\n                \"At least two rules are simultaneously applicable. Check PWM \"\n                \"rules conditions.\"\n            )\n        elif applied_rules == 1:",
+     "        if applied_rules >= 1:"),
+    ('c02_control_applied_after_torque', 'C02', S,
+     "        self._compute_motor_control(motor_control=motor_control)\n        self._compute_driving_torque()\n",
+     "        self._compute_driving_torque()\n        self._compute_motor_control(motor_control=motor_control)\n"),
+    ('c14_control_skipped_at_first_instant', 'C14', S,
+     "        if motor_control is not None:\n            motor_control.apply_rules()",
+     "        if motor_control is not None and len(self.__powertrain.time) > 1:\n            motor_control.apply_rules()"),
+    # ---- C15
+    ('c15_timer_end_exclusive', 'C15', 'gearpy/sensors/timer.py',
+     "            ((current_time - self.start_time) <= self.duration)",
+     "            ((current_time - self.start_time) < self.duration)"),
+    ('c15_static_error_subtracted', 'C15', 'gearpy/motor_control/rules/reach_angular_position.py',
+     "            self.__braking_angle + regime_angular_position_error",
+     "            self.__braking_angle - regime_angular_position_error"),
+    ('c15_ramp_minus_dmin', 'C15', 'gearpy/motor_control/rules/start_proportional_to_angular_position.py',
+     "                self.__target_angular_position + pwm_min",
+     "                self.__target_angular_position - pwm_min"),
+    ('c15_limit_current_i0_once', 'C15', 'gearpy/motor_control/rules/start_limit_current.py',
+     "2*no_load_electric_current", "no_load_electric_current"),
+    ('c15_efficiency_spur_only', 'C15', 'gearpy/motor_control/rules/utils.py',
+     "        if isinstance(element, GearBase | WormGear):\n", "        if isinstance(element, GearBase) and not hasattr(element, 'helix_angle'):\n", 2),
+    ('c15_reach_window_strict', 'C15', 'gearpy/motor_control/rules/reach_angular_position.py',
+     "        if angular_position >= braking_starting_angle:",
+     "        if angular_position >= braking_starting_angle + self.__braking_angle/10:"),
 ]
 
 
